@@ -419,7 +419,7 @@ class Parallel:
                         for result in self._run_callbacks(in_thread_result)
                     ]
 
-                if not pool:
+                if not pool and done_queue.empty():
                     break
 
                 for name in retired_workers:
